@@ -873,6 +873,12 @@ def gen_case(rng, focus, nops=None):
         names = [n for kd, n in gen.sig_names(sig) if kd == 'pos']
         if names and rng.random() < 0.3:
             cfg['ignore'] = enc([rng.choice(names + list(range(len(names))))])
+    if focus == 'C02' and rng.random() < 0.2:
+        # ignored arguments put klepto's NULL marker into the key; the key must still find its
+        # archived entry (only C02's own monitors are reported for these histories)
+        names = [n for kd, n in gen.sig_names(sig) if kd == 'pos']
+        if names:
+            cfg['ignore'] = enc([rng.choice(names)])
     if algo not in BOUNDED:
         cfg['maxsize'] = 0 if algo == 'no' else None
     universe = list(gen.UNIVERSE)
